@@ -1960,6 +1960,24 @@ fn vp_native_multipart_request_on_the_wire_body() {
         let parts = r.body.windows(opening.len()).filter(|w| *w == opening.as_bytes()).count();
         assert_eq!(parts, ntext + nfiles, "{}: delimiter lines in the framed body", ctx);
     } } }
+    // the end of a file part against the 8 KiB blocks the body is copied in: every file size in a window one block wide (and the
+    // same one and four blocks further on), so that the part ends on every offset of a block, its last byte included
+    for extra in [0usize, 8192, 32768] { for size in (8192 - 520)..=8192usize {
+        let data: Vec<u8> = (0..size + extra).map(|i| (i % 251) as u8).collect();
+        let b = crate::MultipartBuilder::new().with_text("t", "v").with_file(crate::MultipartFile::new("f0", &data)).with_file(crate::MultipartFile::new("f1", &b"second"[..])).with_text("last", "x");
+        let mut req = crate::post("http://h.test/upload").body(b.build().unwrap()).prepare();
+        let url = req.url().clone();
+        set_host(&mut req.headers, &url).unwrap();
+        let mut wire = Vec::new(); req.write_request(&mut wire, &url, None).unwrap();
+        let r = decode_request(&wire); cases += 1; crate::verif_native_watchdog::progress();
+        let ct = header(&r, "content-type");
+        let boundary = String::from_utf8_lossy(ct[0]).strip_prefix("multipart/form-data; boundary=").unwrap().to_string();
+        let closing = format!("\r\n--{}--", boundary);
+        assert!(r.trailing.is_empty() && r.body.ends_with(closing.as_bytes()), "a form whose first file has {} bytes: the framed body ({} bytes) does not end with the closing delimiter", size + extra, r.body.len());
+        let opening = format!("\r\n--{}\r\n", boundary);
+        assert_eq!(r.body.windows(opening.len()).filter(|w| *w == opening.as_bytes()).count(), 4, "a form whose first file has {} bytes: parts in the framed body", size + extra);
+        assert!(r.body.windows(6).any(|w| w == b"second"), "a form whose first file has {} bytes: the second file is missing", size + extra);
+    } }
     println!("VP-NATIVE multipart_request_on_the_wire cases={}", cases);
 }
 
